@@ -34,6 +34,16 @@ def evaluate(case):
     with np.errstate(all="ignore"):
         s, _ = c11.build(case)
     stored = s.sq_individuals.copy()
+    # what the inputs contribute, recomputed independently of the ingestion code (crop, scale, offset, window, conversion)
+    conv = impl.obj("Converter")
+    with np.errstate(all="ignore"):
+        rows = [sc.spec_ingest(d, case["qmin"], case["qmax"], case["bcoh"], case["btot"], conv)[1] for d in case["datasets"]]
+    spec = np.concatenate(rows, axis=1) if rows else np.zeros((3, 0))
+    spec[0] = np.around(spec[0], 2)
+    if set(keys(spec[0]).tolist()) != set(keys(stored[0]).tolist()) or spec.shape[1] != stored.shape[1]:
+        fails.append(f"the points that reach the merge ({stored.shape[1]}) are not the in-window points of the inputs ({spec.shape[1]}): "
+                     "the merged grid cannot contain each input Q value")
+        return fails
     if stored.shape[1] == 0:
         return fails
     s.merge_data()
